@@ -66,6 +66,20 @@ CFInner(z) == CFLoop("j", 2, B0 \cup Seqs1(CFIf(CFCondsQ("j"), Seqs1({SBreak(0),
 CFBody2(c) == Around({ s \in CFIf(CFCondsQ(c), Seqs1(CFIf(CFCondsQ(c), Seqs1(CFAtoms), B0)), B0) : TRUE })
               \cup { <<Put(N(0), "j"), l>> : l \in CFInner(0) } \cup { <<Put(N(0), "j"), l, a>> : l \in CFInner(0), a \in CFAtoms }
 
+(* loops driven by their CONDITION: "while/until re-evaluate their condition before every iteration" is observable when the       *)
+(* condition itself has the effect (a roll, a call), whatever the body is - also when it is empty                                  *)
+CFStep == SFunc(0, "fun", <<"p">>, <<SInc(0, Var("k"), 1), SReturn(0, Lt(Var("k"), Var("p")))>>)
+CFCondLoops == {
+  << <<SRock(0, Var("q"), <<N(1), N(2), N(3)>>), SWhile(0, RollE(Var("q")), <<>>), Say(Var("q")), SayS("end")>> >>,
+  << <<SRock(0, Var("q"), <<N(1), N(2), N(3)>>), SUntil(0, Un("not", RollE(Var("q"))), <<>>), Say(Var("q")), SayS("end")>> >>,
+  << <<SRock(0, Var("q"), <<N(1), N(2), N(3)>>), SWhile(0, RollE(Var("q")), <<SayS("in")>>), Say(Var("q")), SayS("end")>> >>,
+  << <<SRock(0, Var("q"), <<N(0), N(2)>>), SWhile(0, RollE(Var("q")), <<>>), Say(Var("q")), SUntil(0, RollE(Var("q")), <<>>), Say(Var("q"))>> >>,
+  << <<CFStep>>, <<Put(N(0), "k"), SWhile(0, Call("fun", <<N(3)>>), <<>>), Say(Var("k")), SayS("end")>> >>,
+  << <<CFStep>>, <<Put(N(0), "k"), SUntil(0, Un("not", Call("fun", <<N(3)>>)), <<>>), Say(Var("k")), SayS("end")>> >>,
+  << <<CFStep>>, <<Put(N(0), "k"), Put(N(0), "i"), SWhile(0, Lt(Var("i"), N(2)), <<SInc(0, Var("i"), 1), SWhile(0, Call("fun", <<N(2)>>), <<>>), Say(Var("k")), Put(N(0), "k")>>), SayS("end")>> >>,
+  << <<CFStep>>, <<Put(N(5), "k"), SWhile(0, Call("fun", <<N(3)>>), <<>>), Say(Var("k")), SayS("end")>> >>
+}
+
 (* (family definitions take a dummy parameter: TLC evaluates zero-arity constant definitions once per worker at start-up) *)
 CFPrograms(z) ==
   LET bodies == CFBody1("i") \cup (IF Tier = "quick" THEN {} ELSE CFBody2("i"))
@@ -73,6 +87,7 @@ CFPrograms(z) ==
   IN { << <<SRock(0, Var("arr"), <<>>), Put(N(0), "i"), l, SayS("end")>> >> : l \in loops }
      \cup { << <<SRock(0, Var("arr"), <<>>), Put(N(1), "i"), s, SayS("end")>> >> : s \in CFIf(CFConds("i"), B0w, B0w) }
      \cup { << <<SayS("a"), a>>, <<SayS("b"), b>>, <<SayS("end")>> >> : a, b \in { SBreak(0), SContinue(0), SReturn(0, N(1)), SayS("x") } }
+     \cup CFCondLoops
 
 -----------------------------------------------------------------------------
 (* FN: functions, scopes, pronouns *)
@@ -141,14 +156,14 @@ FN2 == {  \* two parameters: binding order, left-to-right evaluation, by-value, 
   << <<SFunc(0, "ff", <<"a">>, <<Ret(Var("a"))>>)>>, <<SFunc(0, "ff", <<"b">>, <<Ret(N(0))>>)>> >>,
   \* a name is looked up innermost first whatever it is looked up for: a parameter or local variable that has the name of a
   \* function defined further out hides it, so calling that name is calling a non-function
-  << <<SFunc(0, "dbl", <<"a">>, <<Ret(PlusE(Var("a"), Var("a")))>>)>>,
-     <<SFunc(0, "app", <<"dbl", "b">>, <<Ret(Call("dbl", <<Var("b")>>))>>)>>,
-     <<Say(Call("dbl", <<N(2)>>)), Say(Call("app", <<N(1), N(4)>>)), SayS("unreachable")>> >>,
-  << <<SFunc(0, "dbl", <<"a">>, <<Ret(PlusE(Var("a"), Var("a")))>>)>>,
-     <<SFunc(0, "loc", <<"b">>, <<Put(N(1), "dbl"), Say(Var("dbl")), Ret(Call("dbl", <<Var("b")>>))>>)>>,
+  << <<SFunc(0, "helper", <<"a">>, <<Ret(PlusE(Var("a"), Var("a")))>>)>>,
+     <<SFunc(0, "outer", <<"helper", "b">>, <<Ret(Call("helper", <<Var("b")>>))>>)>>,
+     <<Say(Call("helper", <<N(2)>>)), Say(Call("outer", <<N(1), N(4)>>)), SayS("unreachable")>> >>,
+  << <<SFunc(0, "helper", <<"a">>, <<Ret(PlusE(Var("a"), Var("a")))>>)>>,
+     <<SFunc(0, "loc", <<"b">>, <<Put(N(1), "helper"), Say(Var("helper")), Ret(Call("helper", <<Var("b")>>))>>)>>,
      <<Say(Call("loc", <<N(4)>>)), SayS("unreachable")>> >>,
-  << <<SFunc(0, "dbl", <<"a">>, <<Ret(PlusE(Var("a"), Var("a")))>>)>>,
-     <<SIf(0, Lit(Bool(TRUE)), <<Put(N(1), "dbl"), Say(Call("dbl", <<N(3)>>))>>, FALSE, <<>>), SayS("unreachable")>> >>,
+  << <<SFunc(0, "helper", <<"a">>, <<Ret(PlusE(Var("a"), Var("a")))>>)>>,
+     <<SIf(0, Lit(Bool(TRUE)), <<Put(N(1), "helper"), Say(Call("helper", <<N(3)>>))>>, FALSE, <<>>), SayS("unreachable")>> >>,
   \* ... and the other way round: a function defined in an inner scope hides a variable of that name for reading
   << <<Put(N(5), "v")>>,
      <<SIf(0, Lit(Bool(TRUE)), <<SFunc(0, "v", <<"a">>, <<Ret(Var("a"))>>), Say(Call("v", <<N(1)>>)), Say(Var("v"))>>, FALSE, <<>>), SayS("unreachable")>> >>,
@@ -199,7 +214,7 @@ CTPrograms(z) ==
          Put(N(0), "j"), SWhile(0, Lt(Var("j"), N(2)), <<SInc(0, Var("j"), 1), CTIf(Eq(Var("j"), N(1)), <<SContinue(0)>>, <<SBreak(0)>>), SayS("never")>>), Say(Var("i"))>>)>>,
      <<SayS("end")>> >>,
   << <<CTIf(FF, <<>>, <<SayS("else of empty then")>>), CTIf(TT, <<SayS("then")>>, <<>>), SayS("after")>> >>
-  }
+  } \cup CFCondLoops
 
 (* LT: programs for the linter as TEXT: constant assignments of every form at every depth, repeated mentions, several blocks *)
 LTPrograms(z) == {
